@@ -32,6 +32,8 @@ def num(x):
         s = s.rstrip('0')
         if s.endswith('.'):
             s += '0'
+        if float(s) != float(x):
+            s = repr(float(x))         # very small / very large magnitudes: exponent notation is the only exact spelling
     return s
 
 
